@@ -1812,7 +1812,22 @@ impl PeerConnection {
                     // Update transceiver parameters
                     let payload_map = Self::extract_payload_map(section);
                     if !payload_map.is_empty() {
-                        let _ = t.update_payload_map(payload_map);
+                        let _ = t.update_payload_map(payload_map.clone());
+
+                        // Sync the sender's params to the offered PT of its codec, as the
+                        // answer and re-INVITE paths do: the answer echoes the offered payload
+                        // types, so a sender that keeps its default PT stamps a payload type
+                        // the answer does not list.
+                        if let Some(sender) = t.sender() {
+                            let cur = sender.params();
+                            let new_params =
+                                Self::pick_sender_codec_params(section, &payload_map, &cur);
+                            if let Some(np) = new_params
+                                && np.payload_type != cur.payload_type
+                            {
+                                sender.set_params(np);
+                            }
+                        }
                     }
                     let extmap = Self::extract_extmap(section);
                     let _ = t.update_extmap(extmap);
